@@ -172,6 +172,7 @@ func H_C15_decode() {
 // key_ops / private material / key type gates of Signer() and Verifier()
 func H_C15_gates() {
 	fp := mkFaultPlan(0)
+	keyTreeGenuine = true
 	keyTreeNoVary = vTier() == 0 // quick: well-formed skeletons; the gates are about key_ops / private material / key type
 	// key_ops of every shape, on top of the skeleton (which itself has no key_ops unless common==3)
 	tree := mkConfKeyTree("k", fp)
